@@ -233,12 +233,16 @@ def check_invariants(case):
     dh = abs(e1["h"] / e0["h"] - 1)
     n, wp = rates(case["el"], mu)
     h = case["h"]
+    # floor: the state asked for is re-sampled through the integration grid (order-8 Lagrange); the statement
+    # allows that "a few millimetres" - 1 mm of position is 1e-3/rp of energy / angular momentum
+    # (worst seen: 4e-5 m equivalent, rk4 h=5 s on a 21 000 km orbit, where the truncation term is 3e-13)
+    floor = 1e-3 / (case["el"]["a"] * (1 - case["el"]["e"])) + 1e-12
     if case["method"] in C_INV:
         p = METHOD_ORDER[case["method"]]
-        bound = C_INV[case["method"]] * (wp * h) ** p * (wp * abs(T)) + 1e-12
+        bound = C_INV[case["method"]] * (wp * h) ** p * (wp * abs(T)) + floor
     else:
         steps = abs(T) / h + 8
-        bound = 100 * 1e-3 * steps / (case["el"]["a"] * (1 - case["el"]["e"])) * 3 + 1e-12
+        bound = 100 * 1e-3 * steps / (case["el"]["a"] * (1 - case["el"]["e"])) * 3 + floor
     if dE > bound or dh > bound:
         raise Violation("invariant-drift", f"{case['method']} h={h}s T={T:.1f}s: |dE/E|={dE:.3g} |dh/h|={dh:.3g} > {bound:.3g}")
     return dict(nt=True, cls=[case["method"], "backward" if case["back"] else "forward"], ratio=max(dE, dh) / bound)
